@@ -21,7 +21,9 @@ def _impl_outcome(impl):
 
 def _equal(case, impl, model):
     if case.startswith("cmpver"):
-        return impl == model
+        # where the pinned CompareVersion crashes (malformed version text: the tool ends) the property asks nothing of a
+        # replacement that answers instead
+        return impl == model or model == "panic"
     mp, spec, _ = _split(model)
     if impl != mp:
         return False            # the code no longer behaves as the proved model
